@@ -790,6 +790,53 @@ def case_kthlist_names(ctx, names):
             ctx.judged(("write", "kthlist2pebbling", digest(o.out)), sample={"command": label, "output": short(o.out, 160)})
 
 
+def case_few_descriptors(ctx):
+    """A long-running program: hundreds of round trips by file name, through file objects and through the tools'
+    -o option in a process that can open only 40 more files than it has open (soft RLIMIT_NOFILE lowered for the
+    duration).  Exports and imports that close what they open never notice."""
+    ref.selfcheck()
+    from .. import semantic as S
+    from ..cliharness import run_main
+    K = cnf_classes()["CNF"] if isinstance(cnf_classes(), dict) else list(cnf_classes())[0]
+    with Scratch() as scratch:
+        before = S.open_descriptors()
+        with S.few_descriptors_left(40):
+            for i in range(300):
+                F = K([[1, -2], [2, 3], [-(1 + i % 3)]])
+                p = os.path.join(scratch.dir, "rt%d.cnf" % (i % 7))
+                route = i % 4
+                try:
+                    if route == 0:
+                        F.to_file(p)
+                        G = K.from_file(p)
+                    elif route == 1:
+                        with open(p, "w") as fh:
+                            F.to_file(fh)
+                        with open(p) as fh:
+                            G = K.from_file(fh)
+                    elif route == 2:
+                        F.to_file(p, fileformat="dimacs", export_header=False)
+                        G = K.from_file(p)
+                    else:
+                        o = run_main("cnfgen", ["-q", "-o", p, "and", "2", "1"])
+                        if o.exc is not None:
+                            raise o.exc
+                        G = K.from_file(p)
+                        F = K([[1], [2], [-3]])
+                except Exception as e:      # noqa: BLE001
+                    ctx.violation("roundtrip:by-name:after-many-round-trips:%s" % type(e).__name__,
+                                  "round trip number %d (route %d) in a process allowed 40 more open files than it had at the start: %r; "
+                                  "open descriptors went from %d to %d" % (i + 1, route, e, before, S.open_descriptors()))
+                    break
+                ctx.count("round_trips_with_few_descriptors_left")
+                if [list(c) for c in G] != [list(c) for c in F]:
+                    ctx.violation("roundtrip:by-name:misread", "round trip number %d (route %d): %r came back as %r" % (i + 1, route, list(F), list(G)))
+                    break
+        after = S.open_descriptors()
+        ctx.count("descriptors_open_after_300_round_trips_minus_before", max(0, after - before))
+        ctx.judged(("few-descriptors",), sample={"round_trips": 300, "descriptors_before": before, "after": after})
+
+
 def case_input_file_names(ctx, names):
     """`cnfgen dimacs <file>` / cnfshuffle put the input file name into the description they write."""
     ref.selfcheck()
@@ -818,6 +865,24 @@ def case_input_file_names(ctx, names):
                     ctx.violation("roundtrip:by-name:%s" % (type(_ if st2 == "exc" else F3).__name__ if "exc" in (st2, st3) else "misread"),
                                   "to_file / from_file through a file named %r: %r" % ("again-" + name, _ if st2 == "exc" else F3))
                 ctx.judged(("by-name", repr(name)), sample={"file_name": name})
+                # no format given: DIMACS unless the name *ends with the extension* .tex / .opb
+                base_, ext_ = os.path.splitext(name)
+                if ext_ not in (".tex", ".opb"):
+                    sub = os.path.join(scratch.dir, "default-format")
+                    os.makedirs(sub, exist_ok=True)
+                    p4 = os.path.join(sub, name)
+                    st4, e4 = ctx.call(F.to_file, p4)
+                    st5, F5 = ctx.call(K.from_file, p4) if st4 == "ok" else ("skip", None)
+                    ctx.count("default_format_exports_by_name")
+                    if st4 == "exc" or st5 == "exc" or [list(c) for c in F5] != [[1, -2], [2]] or F5.number_of_variables() != 2:
+                        head = ""
+                        try:
+                            head = open(p4, errors="replace").read(60)
+                        except OSError:
+                            pass
+                        ctx.violation("roundtrip:by-name:default-format:%s" % (type(e4 if st4 == "exc" else F5).__name__ if "exc" in (st4, st5) else "misread"),
+                                      "F.to_file(<file named %r>) without a format, then CNF.from_file: %r; the file starts with %r"
+                                      % (name, e4 if st4 == "exc" else F5, head))
             for tool, argv in (("cnfgen", ["dimacs", p]), ("cnfshuffle", ["-p", "-v", "-c", "-i", p])):
                 with WriterTap() as tap:
                     o = run_main(tool, argv)
@@ -1557,7 +1622,10 @@ def _workload(tier, seed):
     yield "kthlist_names", {"names": ["a graph", "", None, "pyramid of height 2 ", "x\ty", "\u00e9", "p cnf 1 1", "c"]}
     yield "input_file_names", {"names": ["plain.cnf", "with space.cnf", "new\nline.cnf", "\u00e9.cnf", "c.cnf",
                                          "cr\rhere.cnf", "p cnf 1 1", "%.cnf", "packed.cnf.gz", "packed.cnf.bz2", "packed.cnf.xz", "PACKED.CNF.GZ",
-                                         "old.lzma", "f.zip", "f.tar", "f.cnf~", "noext", ".cnf", "f.opb", "f.tex", "f.latex", "f.dimacs", "{x}.cnf"]}
+                                         "old.lzma", "f.zip", "f.tar", "f.cnf~", "noext", ".cnf", "f.opb", "f.tex", "f.latex", "f.dimacs", "{x}.cnf",
+                                         "vertex", "cortex", "instance.vertex", "dropb", ".tex", ".opb", "tex", "opb", "latex", "f.TEX", "f.Opb",
+                                         "f.tex.bak", "f.opb.cnf", "f.texx", "a.b.c", "f.", "f.cnf.tex.cnf", "dimacs", "cnf"]}
+    yield "few_descriptors", {}
     for i, fam in enumerate(FAMILIES):
         yield "family", {"family": fam, "chain": "", "seed": seed + 1}
         for j in range(1 if q else 4):
